@@ -100,6 +100,10 @@ def read : FS → Path → Option Content
 
 def write (p : Path) (c : Content) (fs : FS) : FS := (p, c) :: fs
 
+def remove (p : Path) : FS → FS
+  | [] => []
+  | (q, c) :: r => if q = p then remove p r else (q, c) :: remove p r
+
 /-- all working storage is lost; savepoint directories survive -/
 def wipe (fs : FS) : FS := fs.filter (fun e => !e.1.isWork)
 
@@ -260,5 +264,50 @@ def ackSrc (s : Store) (id : Nat) (st : String) : Store × Option Published :=
 def publish (L : Lister) (fs : FS) (jobURI : URI) (pub : Published) : FS × Bool :=
   let fs1 := write (.work jobURI) (.job pub.1) fs
   if pub.2 then createArtifact L fs1 jobURI pub.1 else (fs1, true)
+
+/-- where `finishSnapshotAsync` writes the job snapshot of checkpoint `id`:
+`<checkpointsPath>/job-<pathSegment id>.snapshot`, a working-storage file -/
+def jobURI (id : Nat) : URI := ⟨"", s!"job:{id}"⟩
+
+/-- removal of the obsolete job snapshot files after a publication: the paths are recomputed from the obsolete
+ids (`filepath.Join(checkpointsPath, "job-"+pathSegment(id)+".snapshot")`), whatever file the snapshot was loaded
+from — in particular never the `job.savepoint` a restored job was started from -/
+def cleanup (fs : FS) : List Nat → FS
+  | [] => fs
+  | id :: r => cleanup (remove (.work (jobURI id)) fs) r
+
+/-- anything the running job, its operators or an administrator may do to the working storage -/
+inductive WorkOp
+  | put (u : URI) (c : Content)
+  | del (u : URI)
+
+def applyWork (fs : FS) : List WorkOp → FS
+  | [] => fs
+  | .put u c :: r => applyWork (write (.work u) c fs) r
+  | .del u :: r => applyWork (remove (.work u) fs) r
+
+/-- what a job does to the storage over its life, including restarts from savepoints: operators and the store
+write and delete working files, snapshots are published (with artifact creation for savepoints and removal of
+obsolete job snapshots), the job is started from a savepoint -/
+inductive JobAct
+  | work (ops : List WorkOp)
+  | publish (pub : Published) (obsolete : List Nat)
+  | startFrom (sid : Nat)
+  | wipe
+
+def jobStep (L : Lister) (fs : FS) : JobAct → FS
+  | .work ops => applyWork fs ops
+  | .publish pub obsolete => cleanup (publish L fs (jobURI pub.1.id) pub).1 obsolete
+  | .startFrom sid => (loadFromSavepoint L fs sid).1
+  | .wipe => wipe fs
+
+def jobRun (L : Lister) (fs : FS) : List JobAct → FS
+  | [] => fs
+  | a :: r => jobRun L (jobStep L fs a) r
+
+/-- the savepoint ids for which an artifact is (re)created during the run -/
+def JobAct.savepointId : JobAct → Option Nat
+  | .publish pub _ => if pub.2 then some pub.1.id else none
+  | _ => none
 
 end Rxn.Savepoint
